@@ -319,6 +319,7 @@ class SimE(Simulator):
         ops.append(["tick", 20, 0.1])
         ops.append(["settle", 200])
         ops.append(["end_stop"])
+        ops.append(["twin_check"])
         return {"cfg": {"recovery": False, "runlog_every": 4, "wellformed": True}, "method": method, "ops": ops}
 
     # -- profile: cancel / force of run-log items at drawn ticks (C12, C04)
@@ -620,6 +621,7 @@ class SimE(Simulator):
         return res
 
     def _run(self, w: EngineWorld, plan: dict, res: RunResult, tape: Tape) -> None:
+        w.plan = plan
         oracles = _oracles_for(w, plan, res)
         w.observers.extend(oracles)
         by_name = {type(o).__name__: o for o in oracles}
